@@ -1,11 +1,15 @@
 (* polliwog/line: _line_functions.py (project_point_to_line), _line_object.py (Line), _line_intersect.py
    (intersect_lines, intersect_2d_lines).
-   intersect_lines / intersect_2d_lines are modelled WITH the repairs proposed in fixes/C18-*.diff:
-     - intersect_lines: `k_ == 0 -> None`, then `h_ == 0 -> p0` (p0 lies on line 1; the released code returns None),
-       and the sign of the step is chosen by `dot(h, k) > 0` (the released code compares h/h_ == k/k_ with
-       floating-point equality, which picks the wrong sign for many integer inputs);
-     - intersect_2d_lines: an explicit determinant test before np.linalg.solve (whose LU pivot is not exactly zero
-       for some parallel integer lines).
+   The model is the code of /repo INCLUDING the accepted repairs:
+     - intersect_lines (commit fcc1d6c): `k_ == 0 -> None`, then `h_ == 0 -> p0` (p0 lies on line 1; the released code
+       returned None), and the sign of the step is chosen by `dot(h, k) > 0` (the released code compared h/h_ == k/k_ with
+       floating-point equality, which picked the wrong sign for many integer inputs);
+     - intersect_2d_lines (commit 7dfe779): an explicit determinant test before np.linalg.solve (whose LU pivot is not
+       exactly zero for some parallel integer lines);
+     - project_point_to_line (commit 36e7d06) rescales the direction by a power of two before normalising it, against
+       overflow / underflow of the squared norm. That step is NOT mirrored here: it is the identity on the result over the
+       reals (P_line.project_scale_invariant, props C18_projection_ignores_direction_length); the traced ties prove the
+       rescaled trace equal to this model.
    A NaN row is the explicit marker `None`. Definitions only. *)
 From Coq Require Import ZArith List Bool.
 From PW Require Import Num Vec NpList Result.
